@@ -18,7 +18,7 @@ except Exception as e: m={'error':str(e)}
 json.dump(m,open(sys.argv[3],'w'),indent=1,ensure_ascii=False)
 PY
   S=$(mktemp -d /tmp/rft.XXXXXX)
-  rsync -a --exclude .git /repo/ $S/repo/
+  mkdir -p $S/repo && git -C /repo archive HEAD | tar -x -C $S/repo
   mkdir -p $S/verif/evidence; cp /verif/known_findings.txt $S/verif/
   if ! (cd $S/repo && git init -q 2>/dev/null; git -C $S/repo apply $out/patch.diff 2>/dev/null || patch -s -p1 -d $S/repo < $out/patch.diff); then echo "$id-$n: PATCH DOES NOT APPLY"; rm -rf $S; continue; fi
   if ! (cd $S/repo && go build ./... >/dev/null 2>&1); then echo "$id-$n: DOES NOT BUILD"; rm -rf $S; continue; fi
